@@ -168,7 +168,9 @@ func TestC03Trees(t *testing.T) {
 		return
 	}
 	rapid.Check(t, func(rt *rapid.T) {
-		n := gen.Tree(rt, gen.DefaultTreeOpts())
+		to := gen.DefaultTreeOpts()
+		to.Alphabet = "bytes"
+		n := gen.Tree(rt, to)
 		nt, labels := c03NonTrivial(n)
 		enc := ttlvref.Write(n)
 		rec.Case(nt, enc, labels...)
